@@ -76,9 +76,15 @@ func (w *world) checkCall(p *plan, cfg checkCfg, stats *checkStats) (viol []stri
 	if c.hung || !c.finished {
 		add("call-hung:%s", kind)
 	}
+	if c.lostWake > 0 {
+		add("client-message-pending-without-notification:%s", kind)
+	}
+	if s.lostWake > 0 {
+		add("server-message-pending-without-notification:%s", kind)
+	}
 
 	// The call was not disturbed: the exact specification applies.
-	exact := !cfg.fault && !c.hung && !c.cancelled && c.panicked == "" && p.cliBehav != bAbandon && p.cliBehav != bCancel
+	exact := !cfg.fault && !c.hung && !c.cancelled && c.panicked == "" && p.cliBehav != bAbandon && p.cliBehav != bCancel && p.cliBehav != bFreeRace
 
 	// 1. invocations
 	if s.inv > 1 {
@@ -93,6 +99,7 @@ func (w *world) checkCall(p *plan, cfg checkCfg, stats *checkStats) (viol []stri
 		add("request-send-failed:%s:%s", kind, stcode(c.reqSt))
 	}
 	if !cfg.fault && reqOK && !c.cancelled && !c.hung {
+		// (also for abandoned and freed calls: the request has been sent)
 		switch {
 		case s.inv == 0:
 			add("handler-not-invoked:%s", kind)
@@ -104,6 +111,9 @@ func (w *world) checkCall(p *plan, cfg checkCfg, stats *checkStats) (viol []stri
 	// 3. streams
 	var buf []byte
 	for i, m := range c.recv {
+		if p.cliBehav == bFreeRace {
+			break // the contents were not looked at, see doCall
+		}
 		if i >= p.srvMsgs {
 			add("client-received-surplus-message:%s:%s", kind, msgOwner(m))
 			break
